@@ -892,7 +892,7 @@ class MulPart(PointIO):
         E.fill(tab, R.poison, size)
         ok = False
         with Case(ctx, "%s|%s" % (impl_of(R, pre), cv.pcls(d)), {"P": dshow(d)}, nontrivial=cv.pcls(d) != "inf",
-                  budget=600) as go:
+                  budget=600, setup=True) as go:
             if go:
                 self.put(self.p_, cv.aff(d), "B")
                 res = R.call(pre, tab, self.p_)
@@ -1118,7 +1118,7 @@ def run(ctx, part):
     R = RT(ctx.cfg)
     E = EX(R)
     ok = False
-    with Case(ctx, "ed_param_set|CURVE_ED25519", {}, nontrivial=False, budget=600) as go:
+    with Case(ctx, "ed_param_set|CURVE_ED25519", {}, nontrivial=False, budget=600, setup=True) as go:
         if go:
             ident = R.E.get("CURVE_ED25519", 1)
             r = R.call("ed_param_set", ident)
@@ -1136,6 +1136,7 @@ def run(ctx, part):
                                                       "ed_mul_fix", "ed_mul_sim")})
     if part == "law":
         w = LawPart(ctx, R, E, cv)
+        w.has("ed_projc_to_extnd")      # only declared and built when ED_ADD == EXTND
         w.run(ctx.n(3000, 50000))
     else:
         w = MulPart(ctx, R, E, cv)
@@ -1146,3 +1147,20 @@ def run(ctx, part):
     ctx.note("functions_not_built", sorted(w.not_built))
     ctx.note("functions_exercised", sorted(R.fn_seen))
     ctx.note("error_codes_seen", {str(k): v for k, v in R.err_codes.items()})
+
+
+def finish(cov):
+    """function-coverage accounting against the API inventory of the design (DESIGN.md 10)"""
+    inv = os.path.join(os.path.dirname(KNOWN) if not os.environ.get("VF_KNOWN") else
+                       os.path.dirname(os.path.dirname(os.path.dirname(os.path.abspath(__file__)))),
+                       "design", "api_inventory.json")
+    try:
+        fns = json.load(open(inv))["functions"]
+    except (OSError, ValueError, KeyError):
+        return
+    scope = sorted(k for k, v in fns.items() if v.get("property") == "C17")
+    seen = set(cov.get("functions_exercised", []))
+    absent = set(cov.get("functions_not_built", []))
+    cov["functions_in_scope"] = len(scope)
+    cov["functions_in_scope_exercised"] = len([f for f in scope if f in seen])
+    cov["functions_uncovered"] = [f for f in scope if f not in seen and f not in absent]
